@@ -172,10 +172,10 @@ fn c02_case(u: &mut Unstructured) -> AResult<c02::Case> {
     let mut history = Vec::new();
     for _ in 0..nh {
         let (x, y) = seq_pair(u, sigma, max)?;
-        history.push(c02::BCall { entry: entry(u)?, x: B(x), y: B(y) });
+        history.push(c02::BCall { entry: entry(u)?, x: B(x), y: B(y), shared: None });
     }
     let (x, y) = seq_pair(u, sigma, max)?;
-    Ok(c02::Case { spec: sp, with_match_scores: u.arbitrary()?, k: u.int_in_range(1..=6)?, w: u.int_in_range(0..=8)?, history, call: c02::BCall { entry: entry(u)?, x: B(x), y: B(y) } })
+    Ok(c02::Case { spec: sp, with_match_scores: u.arbitrary()?, k: u.int_in_range(1..=6)?, w: u.int_in_range(0..=8)?, history, call: c02::BCall { entry: entry(u)?, x: B(x), y: B(y), shared: None } })
 }
 
 /// one libFuzzer input for the alignment target: first choice selects C01 or C02
